@@ -220,7 +220,14 @@ def run(tier: str) -> int:
         masses = rs.uniform(1, 200, n)
         power = float(rs.choice([0.0, 0.25, 0.5, 1.0]))
         CountingAtoms.nset = 0
-        fb = make(forces, delta_, T_, masses=masses, power=power, seed=int(rs.randint(1, 10**6)), cls=CountingAtoms)
+        fictitious = it % 5 == 3
+        # every fifth instance: the masses are FICTITIOUS sampling masses given to the driver (update_masses), per atom
+        # or per coordinate, while the atoms keep their own masses
+        fb = make(forces, delta_, T_, masses=None if fictitious else masses, power=power, seed=int(rs.randint(1, 10**6)), cls=CountingAtoms)
+        if fictitious:
+            if it % 2:
+                masses = rs.uniform(1, 200, (n, 3))
+            fb.update_masses(np.array(masses, dtype=float))
         # the three documented spellings of masses_scaling_power: float, per-element dict, (N,3) array
         if it % 4 == 1:
             fb.masses_scaling_power = {"Cu": power}
@@ -233,7 +240,7 @@ def run(tier: str) -> int:
         pos0 = fb.atoms.get_positions()
         CountingAtoms.nset = 0
         rep.count(("magnitude", it))
-        ctx = {"forces": forces.tolist(), "delta": np.asarray(delta_).tolist(), "T": T_, "power": np.asarray(power).tolist()}
+        ctx = {"forces": forces.tolist(), "delta": np.asarray(delta_).tolist(), "T": T_, "power": np.asarray(power).tolist(), "fictitious_masses": bool(fictitious)}
         try:
             fb.step()
         except RuntimeError as ex:
@@ -245,7 +252,7 @@ def run(tier: str) -> int:
             rep.violation(f"raise:step:{type(ex).__name__}", f"ForceBias.step raised {ex!r} for finite forces", ctx)
             continue
         d = fb.atoms.get_positions() - pos0
-        m = masses[:, None] * np.ones((1, 3))
+        m = (masses[:, None] if np.ndim(masses) == 1 else masses) * np.ones((1, 3))
         bound = np.asarray(delta_) * np.power(m.min() / m, power)
         if not np.all(np.isfinite(d)):
             rep.violation("non-finite-displacement", "the step produced a non-finite position", ctx)
